@@ -115,7 +115,12 @@ func RunTrace(hdr, out string, n int, seed int64) (*TraceStats, error) {
 	}
 	sort.Slice(setupIds, func(i, j int) bool { return setupIds[i] < setupIds[j] })
 	e := env.New(env.Options{BondDenom: graph.Str(meta["VDenom"])})
-	s := &state{env: e, P: graph.Num(meta["P"]), denoms: []string{"uc4e"}, vdenom: "uc4e", addrs: addrs, addr: map[string]sdk.AccAddress{}, name: map[string]string{}, vtypes: vts, setups: setups}
+	var denoms []string
+	for _, d := range graph.List(meta["Denoms"]) {
+		denoms = append(denoms, graph.Str(d))
+	}
+	sort.Strings(denoms)
+	s := &state{env: e, P: graph.Num(meta["P"]), denoms: denoms, vdenom: "uc4e", addrs: addrs, addr: map[string]sdk.AccAddress{}, name: map[string]string{}, vtypes: vts, setups: setups}
 	for _, nme := range addrs {
 		if nme == "mod" {
 			s.addr[nme] = authtypes.NewModuleAddress(dtypes.GreenEnergyBoosterCollector)
@@ -166,13 +171,31 @@ func RunTrace(hdr, out string, n int, seed int64) (*TraceStats, error) {
 			}
 			return c[rng.Intn(len(c))]
 		}
-		spendable := func(a string) int64 { return app.BankKeeper.SpendableCoins(ctx, s.addr[a]).AmountOf("uc4e").Int64() }
-		lockedOf := func(a string) int64 { return app.BankKeeper.LockedCoins(ctx, s.addr[a]).AmountOf("uc4e").Int64() }
+		spendableD := func(a, d string) int64 { return app.BankKeeper.SpendableCoins(ctx, s.addr[a]).AmountOf(d).Int64() }
+		spendable := func(a string) int64 { return spendableD(a, "uc4e") }
+		lockedD := func(a, d string) int64 { return app.BankKeeper.LockedCoins(ctx, s.addr[a]).AmountOf(d).Int64() }
+		// a random non-empty sublist of the denominations (sorted), mostly all of them
+		someDenoms := func() []string {
+			if len(denoms) == 1 || rng.Intn(2) == 0 {
+				return denoms
+			}
+			return []string{denoms[rng.Intn(len(denoms))]}
+		}
+		anyList := func(ds []string) []any {
+			out := []any{}
+			for _, d := range ds {
+				out = append(out, d)
+			}
+			return out
+		}
 		withLocked := func() string {
 			var c []string
 			for _, a := range addrs {
-				if lockedOf(a) > 0 {
-					c = append(c, a)
+				for _, d := range denoms {
+					if lockedD(a, d) > 0 {
+						c = append(c, a)
+						break
+					}
 				}
 			}
 			if len(c) == 0 || rng.Intn(6) == 0 {
@@ -251,21 +274,52 @@ func RunTrace(hdr, out string, n int, seed int64) (*TraceStats, error) {
 			case "createacc":
 				from, to := pick("o1", "o2", "g1", "r1"), fresh()
 				off := [][2]int64{{0, 4}, {0, 2}, {2, 2}, {1, 3}, {2, 6}, {3, 1}, {-2, 3}}[rng.Intn(7)]
-				c := graph.M{"uc4e": upTo(min64(spendable(from), 12))}
-				ev = graph.M{"m": m, "from": from, "to": to, "c": c, "ds": []any{"uc4e"}, "s": now + off[0], "e": now + off[1]}
-				act = graph.M{"name": m, "x": graph.M{"from": from, "to": to, "ds": []any{"uc4e"}}, "c": c, "s": now + off[0], "e": now + off[1]}
+				ds := someDenoms()
+				if rng.Intn(5) > 0 {
+					var have []string
+					for _, d := range ds {
+						if spendableD(from, d) > 0 {
+							have = append(have, d)
+						}
+					}
+					if len(have) > 0 {
+						ds = have
+					}
+				}
+				c := graph.M{}
+				for _, d := range ds {
+					c[d] = upTo(min64(spendableD(from, d), 12))
+				}
+				ev = graph.M{"m": m, "from": from, "to": to, "c": c, "ds": anyList(ds), "s": now + off[0], "e": now + off[1]}
+				act = graph.M{"name": m, "x": graph.M{"from": from, "to": to, "ds": anyList(ds)}, "c": c, "s": now + off[0], "e": now + off[1]}
 			case "split":
 				from, to := withLocked(), fresh()
-				c := graph.M{"uc4e": upTo(lockedOf(from))}
-				ev = graph.M{"m": m, "from": from, "to": to, "c": c, "ds": []any{"uc4e"}}
-				act = graph.M{"name": m, "x": graph.M{"from": from, "to": to, "ds": []any{"uc4e"}}, "c": c}
+				ds := someDenoms()
+				if rng.Intn(5) > 0 {
+					// mostly: only denominations of which something is locked
+					var have []string
+					for _, d := range ds {
+						if lockedD(from, d) > 0 {
+							have = append(have, d)
+						}
+					}
+					if len(have) > 0 {
+						ds = have
+					}
+				}
+				c := graph.M{}
+				for _, d := range ds {
+					c[d] = upTo(lockedD(from, d))
+				}
+				ev = graph.M{"m": m, "from": from, "to": to, "c": c, "ds": anyList(ds)}
+				act = graph.M{"name": m, "x": graph.M{"from": from, "to": to, "ds": anyList(ds)}, "c": c}
 			case "move":
 				from, to := withLocked(), fresh()
 				ev = graph.M{"m": m, "from": from, "to": to}
 				act = graph.M{"name": m, "x": graph.M{"from": from, "to": to}}
 			case "movedenoms":
 				from, to := withLocked(), fresh()
-				ds := []any{"uc4e"}
+				ds := anyList(someDenoms())
 				if rng.Intn(6) == 0 {
 					ds = []any{}
 				}
